@@ -124,6 +124,8 @@ type fx struct {
 	keepAllRegs []region
 	keepAllInit  bool
 	sentinelRefs     map[string]bool // object ids of imported sentinel error variables (io.EOF, ErrXxx)
+	exitCount        map[int]int    // exit edges seen so far, per loop ordinal (names of assert exit=N obligations)
+	atHead           map[*Expr]*Val // athead(e) operands of assert back=N clauses, evaluated at the loop head
 	assertSeen       map[int]bool // assert clauses whose call site / return exists in the function
 	ensuresEvaluated map[int]bool // ensures clauses evaluated at some return (a clause over locals in scope at no return is vacuous)
 	pcOverride   string // guard used by assume instead of curPC (lazily resolved frames)
